@@ -713,3 +713,14 @@ func ExpandConjunctions(as []Atom) []Atom {
 	}
 	return uniq
 }
+
+// ResetCaches drops every memo keyed by SSA objects. The memos pin the whole
+// program they were computed on; a process that analyses many programs in turn
+// (the self-tests load one per seeded change) must drop them between programs.
+func ResetCaches() {
+	mustCache = map[*ssa.Function]map[*ssa.BasicBlock][]Atom{}
+	impliedCache = map[atomKey][]Atom{}
+	summaryCache = map[atomKey][]Atom{}
+	singleAssignCache = map[*ssa.Alloc]ssa.Value{}
+	singleAssignDone = map[*ssa.Alloc]bool{}
+}
